@@ -346,92 +346,175 @@ Fixpoint py_spec (fuel : nat) (count : nat) (s : list N) (acc_rev : list N) : op
 
 Inductive pyres := PYRaise | PYOk (fields : list field) | PYFuel.
 
-(* do_markup on a (sub)string; [depth] = recursion_depth *)
-Fixpoint py_markup (fuel : nat) (depth : nat) (s : list N) : pyres :=
+(* ---- level 1: MarkupIterator_next + parse_field: split a (sub)template into
+   literal characters and raw fields, without looking inside format specs ---- *)
+Inductive raw_item :=
+| RLit (c : N)
+| RFld (name : list N) (conv : option N) (spec : option (list N)).
+
+Inductive rawres := RWRaise | RWOk (items : list raw_item) | RWFuel.
+
+Fixpoint py_lex (fuel : nat) (s : list N) : rawres :=
   match fuel with
-  | O => PYFuel
+  | O => RWFuel
   | S f =>
-      match depth with
-      | O => PYRaise                                       (* Max string recursion exceeded *)
-      | S depth' =>
-          match s with
-          | [] => PYOk []
-          | c :: r =>
-              if c =? ch_rbrace then
-                match r with
-                | d :: r' => if d =? ch_rbrace then py_markup f depth r' else PYRaise
-                | [] => PYRaise                            (* Single '}' encountered *)
-                end
-              else if c =? ch_lbrace then
-                match r with
-                | [] => PYRaise                            (* Single '{' encountered *)
-                | d :: r' =>
-                    if d =? ch_lbrace then py_markup f depth r'
-                    else
-                      match py_field_name f r [] with
-                      | None => PYRaise
-                      | Some (name, term, rest) =>
-                          (* conversion and format spec *)
-                          let after :=
-                            if term =? ch_rbrace then Some (None, None, rest)
-                            else if term =? ch_colon then
-                              match py_spec f 0 rest [] with
-                              | Some (sp, rest') => Some (None, Some sp, rest')
-                              | None => None
-                              end
-                            else (* '!' *)
-                              match rest with
-                              | [] => None                 (* end of string while looking for conversion *)
-                              | cv :: rest1 =>
-                                  match rest1 with
-                                  | [] => None             (* unmatched '{' in format spec *)
-                                  | e :: rest2 =>
-                                      if e =? ch_rbrace then Some (Some cv, None, rest2)
-                                      else if e =? ch_colon then
-                                        match py_spec f 0 rest2 [] with
-                                        | Some (sp, rest') => Some (Some cv, Some sp, rest')
-                                        | None => None
-                                        end
-                                      else None            (* expected ':' after conversion specifier *)
-                                  end
-                              end in
-                          match after with
-                          | None => PYRaise
-                          | Some (conv, spec, rest') =>
-                              let (first, pathtxt) := py_first_part name in
-                              match py_path f pathtxt with
-                              | None => PYRaise
-                              | Some path =>
-                                  if match conv with Some cv => negb (mem cv [114; 115; 97]) | None => false end
-                                  then PYRaise              (* Unknown conversion specifier *)
-                                  else
-                                    let nested :=
-                                      match spec with
-                                      | Some sp => if mem ch_lbrace sp then py_markup f depth' sp else PYOk []
-                                      | None => PYOk []
-                                      end in
-                                    match nested with
-                                    | PYRaise => PYRaise
-                                    | PYFuel => PYFuel
-                                    | PYOk nfs =>
-                                        match py_markup f depth rest' with
-                                        | PYOk fs =>
-                                            PYOk (mk_field (arg_name_of first) path conv
-                                                           (match spec with Some (_ :: _) => true | _ => false end)
-                                                  :: nfs ++ fs)
-                                        | other => other
-                                        end
+      let cons_lit (c : N) (r : rawres) :=
+        match r with RWOk l => RWOk (RLit c :: l) | other => other end in
+      match s with
+      | [] => RWOk []
+      | c :: r =>
+          if c =? ch_rbrace then
+            match r with
+            | d :: r' => if d =? ch_rbrace then cons_lit c (py_lex f r') else RWRaise
+            | [] => RWRaise                                (* Single '}' encountered *)
+            end
+          else if c =? ch_lbrace then
+            match r with
+            | [] => RWRaise                                (* Single '{' encountered *)
+            | d :: r' =>
+                if d =? ch_lbrace then cons_lit c (py_lex f r')
+                else
+                  match py_field_name f r [] with
+                  | None => RWRaise
+                  | Some (name, term, rest) =>
+                      let after :=
+                        if term =? ch_rbrace then Some (None, None, rest)
+                        else if term =? ch_colon then
+                          match py_spec f 0 rest [] with
+                          | Some (sp, rest') => Some (None, Some sp, rest')
+                          | None => None
+                          end
+                        else (* '!' *)
+                          match rest with
+                          | [] => None                     (* end of string while looking for conversion *)
+                          | cv :: rest1 =>
+                              match rest1 with
+                              | [] => None                 (* unmatched '{' in format spec *)
+                              | e :: rest2 =>
+                                  if e =? ch_rbrace then Some (Some cv, None, rest2)
+                                  else if e =? ch_colon then
+                                    match py_spec f 0 rest2 [] with
+                                    | Some (sp, rest') => Some (Some cv, Some sp, rest')
+                                    | None => None
                                     end
+                                  else None                (* expected ':' after conversion specifier *)
                               end
+                          end in
+                      match after with
+                      | None => RWRaise
+                      | Some (conv, spec, rest') =>
+                          match py_lex f rest' with
+                          | RWOk l => RWOk (RFld name conv spec :: l)
+                          | other => other
                           end
                       end
-                end
-              else py_markup f depth r
-          end
+                  end
+            end
+          else cons_lit c (py_lex f r)
       end
   end.
 
-Definition py_parse (t : list N) : pyres := py_markup (2 * length t + 4) 2 t.
+(* ---- level 2: field_name_split, FieldNameIterator, conversion check, and the
+   expansion of a format spec that contains '{' (recursion depth 2: a field
+   nested in a spec cannot itself have a spec that needs expanding) ---- *)
+Record leaf := mk_leaf {
+  lf_name : argname; lf_path : list (bool * list N); lf_conv : option N; lf_spec : list N
+}.
+Inductive sitem := SLit (c : N) | SFld (f : leaf).
+Record tfield := mk_tf {
+  tf_name : argname; tf_path : list (bool * list N); tf_conv : option N; tf_spec : list sitem
+}.
+Inductive titem := TLit (c : N) | TFld (f : tfield).
+
+Definition conv_known (conv : option N) : bool :=
+  match conv with Some cv => mem cv [114; 115; 97] | None => true end.
+
+(* name part and path of a raw field; None = ValueError *)
+Definition split_name (fuel : nat) (name : list N) : option (argname * list (bool * list N)) :=
+  let (first, pathtxt) := py_first_part name in
+  match py_path fuel pathtxt with
+  | Some path => Some (arg_name_of first, path)
+  | None => None
+  end.
+
+Fixpoint leaf_items (fuel : nat) (items : list raw_item) : option (list sitem) :=
+  match items with
+  | [] => Some []
+  | RLit c :: r => match leaf_items fuel r with Some l => Some (SLit c :: l) | None => None end
+  | RFld name conv spec :: r =>
+      match split_name fuel name with
+      | None => None
+      | Some (an, path) =>
+          if negb (conv_known conv) then None               (* Unknown conversion specifier *)
+          else
+            let sp := match spec with Some x => x | None => [] end in
+            if mem ch_lbrace sp then None                   (* Max string recursion exceeded *)
+            else match leaf_items fuel r with
+                 | Some l => Some (SFld (mk_leaf an path conv sp) :: l)
+                 | None => None
+                 end
+      end
+  end.
+
+Inductive treeres := TRaise | TOk (items : list titem) | TFuel.
+Inductive specres := SRaise | SFuelOut | SOk (items : list sitem).
+
+Definition expand_spec (fuel : nat) (sp : list N) : specres :=
+  if mem ch_lbrace sp then
+    match py_lex fuel sp with
+    | RWOk raw => match leaf_items fuel raw with Some l => SOk l | None => SRaise end
+    | RWRaise => SRaise
+    | RWFuel => SFuelOut
+    end
+  else SOk (map SLit sp).
+
+Fixpoint top_items (fuel : nat) (items : list raw_item) : treeres :=
+  match items with
+  | [] => TOk []
+  | RLit c :: r => match top_items fuel r with TOk l => TOk (TLit c :: l) | other => other end
+  | RFld name conv spec :: r =>
+      match split_name fuel name with
+      | None => TRaise
+      | Some (an, path) =>
+          if negb (conv_known conv) then TRaise
+          else
+            match expand_spec fuel (match spec with Some x => x | None => [] end) with
+            | SRaise => TRaise
+            | SFuelOut => TFuel
+            | SOk si =>
+                match top_items fuel r with
+                | TOk l => TOk (TFld (mk_tf an path conv si) :: l)
+                | other => other
+                end
+            end
+      end
+  end.
+
+Definition py_tree (t : list N) : treeres :=
+  let fuel := (2 * length t + 4)%nat in
+  match py_lex fuel t with
+  | RWRaise => TRaise
+  | RWFuel => TFuel
+  | RWOk raw => top_items fuel raw
+  end.
+
+(* the fields in the order CPython looks them up: a field, then the fields of its spec *)
+Definition flatten_tfield (f : tfield) : list field :=
+  mk_field (tf_name f) (tf_path f) (tf_conv f) (nonempty (tf_spec f))
+  :: flat_map (fun si => match si with
+                         | SFld lf => [mk_field (lf_name lf) (lf_path lf) (lf_conv lf) (nonempty (lf_spec lf))]
+                         | SLit _ => []
+                         end) (tf_spec f).
+Definition tree_fields (items : list titem) : list tfield :=
+  flat_map (fun it => match it with TFld f => [f] | TLit _ => [] end) items.
+Definition flatten_tree (items : list titem) : list field := flat_map flatten_tfield (tree_fields items).
+
+Definition py_parse (t : list N) : pyres :=
+  match py_tree t with
+  | TRaise => PYRaise
+  | TFuel => PYFuel
+  | TOk items => PYOk (flatten_tree items)
+  end.
 
 (* the verdict of the structural specification *)
 Inductive pyverdict := VRaises | VFine | VUndecided | VFuel.
